@@ -24,3 +24,29 @@ Print Assumptions C08_mpegts_output_is_payload.
 Example C08_mpegts_example :
   dec (mkPkt 0 0 false (71 :: nrep 0 187 ++ 70 :: nrep 0 187)) = DErr /\ dec (mkPkt 0 0 true (nrep 71 189)) = DErr.
 Proof. split; vm_compute; reflexivity. Qed.
+
+(* ---- the translated kernels (tools/go2coq, spec.d/mpegts.txt) ----
+   rtpmpegts/decoder.go: len(pkt.Payload) == 0, (packetLen % mpegtsPacketSize) != 0, tsPacketCount := packetLen /
+   mpegtsPacketSize, j := i * mpegtsPacketSize, pkt.Payload[j] != syncByte ARE the tests / offsets of Model.dec / split_ts
+   (tsz, sync = GVG.Consts); when the length is a multiple of 188 the count is the model's number of iterations. *)
+From Coq Require Import ZArith.
+From GVL Require Import Chunks.
+From GVG Require Import Kern.
+From GV_mpegts Require Import BridgeLib Bridge.
+Open Scope Z_scope.
+Theorem C08_mpegts_kernels_are_the_code : forall (pl : bytes) (i b : N),
+  Z.of_N (nlen pl) < i64max -> Z.of_N (i * tsz) < i64max ->
+  k_mpegts_dec_empty (Z.of_N (nlen pl)) = (nlen pl =? 0)%N /\
+  k_mpegts_dec_mult (Z.of_N (nlen pl)) (Z.of_N tsz) = Some (negb (nlen pl mod tsz =? 0)%N) /\
+  k_mpegts_dec_count (Z.of_N (nlen pl)) (Z.of_N tsz) = Some (Z.of_N (nlen pl / tsz)) /\
+  ((nlen pl mod tsz = 0)%N -> (nlen pl / tsz = nlen (chunks tsz pl))%N) /\
+  k_mpegts_dec_off (Z.of_N i) (Z.of_N tsz) = Z.of_N (i * tsz) /\
+  k_mpegts_dec_sync (Z.of_N b) (Z.of_N sync) = negb (b =? sync)%N.
+Proof. exact dec_kernels_are_the_code. Qed.
+Print Assumptions C08_mpegts_kernels_are_the_code.
+
+Example C08_mpegts_example_kernels :
+  k_mpegts_dec_empty 0 = true /\ k_mpegts_dec_mult 376 188 = Some false /\ k_mpegts_dec_mult 377 188 = Some true /\
+  k_mpegts_dec_count 376 188 = Some 2 /\ k_mpegts_dec_off 3 188 = 564 /\ k_mpegts_dec_sync 71 71 = false /\
+  k_mpegts_dec_sync 72 71 = true.
+Proof. vm_compute. repeat split. Qed.
